@@ -569,6 +569,9 @@ namespace bluetoe {
     template < typename ConnectionData >
     void server< Options... >::l2cap_output( std::uint8_t* output, std::size_t& out_size, ConnectionData& connection )
     {
+        // clip the output size to the negotiated mtu
+        out_size = std::min< std::size_t >( out_size, connection.negotiated_mtu() );
+
         const auto pending = connection.dequeue_indication_or_confirmation();
 
         if ( pending.first != details::notification_queue_entry_type::empty )
